@@ -5,7 +5,7 @@ import sys
 from hypothesis import given, seed as hseed, strategies as st
 
 from .. import core, impl, pspace
-from ..refsieve import analyze, lex, parse_generic, construct_extension_map, string_value, VALID, INVALID
+from ..refsieve import analyze, lex, parse_generic, construct_extension_map, string_value, VALID, INVALID, UNSPEC
 from ..gen import scripts as S
 
 PROP = "C07"
@@ -194,7 +194,11 @@ def strip_exts(toks, remove):
 def converse_case(text, expected_ext=None):
     """text: script with an extension removed. -> (bucket, detail) or None"""
     r = analyze(text)
-    if r.verdict != INVALID or r.reason != "extension-not-loaded":
+    # a require that also names capabilities unknown to the table: the reference leaves open whether the
+    # require itself is refused, but the script is invalid either way (only the message is not pinned then)
+    unknown_cap = (r.verdict == UNSPEC and r.reason == "unknown-extension+extension-not-loaded"
+                   and all(w == "unknown-extension" for _, w in r.unspec))
+    if not unknown_cap and (r.verdict != INVALID or r.reason != "extension-not-loaded"):
         return "skip", None
     ext = r.info
     api_history(text)
@@ -205,6 +209,8 @@ def converse_case(text, expected_ext=None):
     what = tok.text.lower().decode("latin-1")
     if o.verdict is not False:
         return "fail", ("removed-extension-accepted|needs=%s|at=%s" % (ext, what), {"text": text, "extension": ext, "impl": o.summary()})
+    if unknown_cap:
+        return "ok", None
     want = "extension '%s' not loaded" % ext
     if not (o.error or "").endswith(want):
         return "fail", ("wrong-message|needs=%s|at=%s" % (ext, what), {"text": text, "expected_suffix": want, "error": o.error})
@@ -250,6 +256,17 @@ def converse_worker(arg):
             subsets.append(data.draw(st.lists(st.sampled_from(used), min_size=2, unique=True)))
         for rem in subsets:
             mt = strip_exts(toks, set(rem))
+            if data.draw(st.integers(0, 2)) == 0:
+                # a require naming a capability that is merely spelled like the removed extension does not name it
+                alike = []
+                for e in rem:
+                    alike.append(data.draw(st.sampled_from([e.upper(), e.capitalize(), e + " ", " " + e, e.replace("-", "_") + "s", "comparator-" + e,
+                                                            e[:-1] + e[-1].upper(), e + "\\0"])))
+                alike = [b'"' + a.encode() + b'"' for a in alike]
+                head = [b"require"] + ([alike[0]] if len(alike) == 1 and data.draw(st.booleans()) else
+                                       [b"["] + [t for a in alike for t in (a, b",")][:-1] + [b"]"]) + [b";"]
+                mt = head + mt
+                col.classes["converse:look-alike-capability"] += 1
             if data.draw(st.booleans()):
                 text = data.draw(S.layout(mt))
             else:
@@ -294,7 +311,7 @@ def main(tier, seed, t0):
     quick = tier == "quick"
     col = pspace.run(MOD, tier, seed, overrides=dict(blind=2 if quick else 3))
     col.merge(core.run_shards(converse_worker, [(seed * 1000 + 400 + k, 200 if quick else 3000, 3 if quick else 5) for k in range(16)]))
-    need = ["ext:" + e for e in ALL_EXTS] + ["removed:" + e for e in ALL_EXTS] + ["pos:top", "pos:nested", "pos:testlist", "converse:ok", "converse:require-lines", "history:commands-api"]
+    need = ["ext:" + e for e in ALL_EXTS] + ["removed:" + e for e in ALL_EXTS] + ["pos:top", "pos:nested", "pos:testlist", "converse:ok", "converse:require-lines", "converse:look-alike-capability", "history:commands-api"]
     missing = [c for c in need if not col.classes.get(c)]
     if missing:
         raise core.HarnessError("generator classes empty: %s" % missing)
